@@ -12,6 +12,7 @@ import (
 
 	"verifharness/core"
 	"verifharness/gen"
+	"verifharness/lib"
 	rm "verifharness/refmodel"
 )
 
@@ -201,6 +202,146 @@ func runC05(c *core.Ctx) {
 		})
 	}
 
+	// Structures signed by the LIBRARY's own constructors: when signer and verifier share a
+	// mistake (both sign/verify the wrong bytes) reference-signed originals only show up as
+	// "library rejects"; library-signed ones show the library accepting what is not authentic.
+	c.Job("library-signed", c.N(240, 6000), func(i int, r *core.Rand) {
+		key, _ := rm.NewSigKey([]int{7, 11}[i%2], r)
+		switch (i / 2) % 5 {
+		case 0: // CreateOfflineSignature with every transient type (incl. keys longer than 128 bytes)
+			dt := key.Type
+			tt := []int{7, 11, 0, 1, 2, 3, 4, 5, 6, 8}[(i/10)%10]
+			kl, _ := rm.SigPubLen(tt)
+			tkey := r.Bytes(kl)
+			os, err := offline_signature.CreateOfflineSignature(r.Uint32()|1, uint16(tt), tkey, key.Ed25519Private(), uint16(dt))
+			if err != nil {
+				return
+			}
+			enc := os.Bytes()
+			sh := gen.Shape{"class": "library-signed/offline", "dest_sig": dt, "transient": tt}
+			judge := func(b []byte, derivation string) {
+				c.Eval(1)
+				po, rem, err := offline_signature.ReadOfflineSignature(b, uint16(dt))
+				if err != nil {
+					return
+				}
+				ok, verr := po.VerifySignature(key.Pub)
+				c.Nontrivial([]byte("libsigned-offline"), b)
+				if !ok || verr != nil {
+					return
+				}
+				c.Bucket("lib-accepts/library-signed-offline/" + derivation)
+				ro, _, derr := rm.DecodeOffline(b[:len(b)-len(rem)], dt)
+				s2 := gen.Shape{"derivation": derivation}
+				for k, v := range sh {
+					s2[k] = v
+				}
+				if derr != nil {
+					c.Violate("offline_signature.OfflineSignature.VerifySignature", "verified-but-unframeable", s2, b, derr.Error())
+				} else if res := rm.VerifyOffline(ro, dt, key.Pub); !res.Valid {
+					c.Violate("offline_signature.OfflineSignature.VerifySignature", "verified-but-not-authentic", s2, b, "library-created offline signature verifies in the library but not independently: "+res.Reason)
+				}
+			}
+			judge(enc, "original")
+			for p := 0; p < len(enc); p++ {
+				b := append([]byte{}, enc...)
+				b[p] ^= 1 << uint(r.Pick(8))
+				judge(b, "bitflip")
+			}
+		case 1: // NewRouterInfo
+			m, sh := gen.RouterInfo(r)
+			k7, _ := rm.NewSigKey(7, r)
+			priv, _ := lib.LibSigningPrivateKey(k7)
+			m.Ident, _ = identWithKey(r, k7, rm.IdentCryptoTypes)
+			m.Published &= 1<<62 - 1
+			for j := range m.Addrs {
+				if len(m.Addrs[j].Style) == 0 {
+					m.Addrs[j].Style = []byte("NTCP2")
+				}
+			}
+			ri, ok, err := lib.BuildRouterInfo(m, priv, 0)
+			if !ok || err != nil {
+				return
+			}
+			b, err := ri.Bytes()
+			if err != nil {
+				return
+			}
+			sh["class"] = "library-signed/rinfo"
+			c05LibSigned(c, verifyAdapters["rinfo"], b, sh, r)
+		case 2: // NewLeaseSet
+			m, sh := gen.LeaseSet(r)
+			priv, err := lib.LibSigningPrivateKey(key)
+			if err != nil {
+				return
+			}
+			m.Dest, _ = identWithKey(r, key, rm.IdentCryptoTypes)
+			m.SigningKey = r.Bytes(32)
+			for j := range m.Leases {
+				m.Leases[j].EndMs &= 1<<62 - 1
+			}
+			ls, ok, err := lib.BuildLeaseSet(m, priv)
+			if !ok || err != nil {
+				return
+			}
+			b, err := ls.Bytes()
+			if err != nil {
+				return
+			}
+			sh["class"] = "library-signed/leaseset"
+			c05LibSigned(c, verifyAdapters["leaseset"], b, sh, r)
+		case 3: // NewLeaseSet2, with and without offline keys
+			m, sh := gen.LeaseSet2(r)
+			m.Dest, _ = identWithKey(r, key, rm.IdentCryptoTypes)
+			m.Offline, m.Flags = nil, m.Flags&6
+			signer := key
+			if i%4 < 2 {
+				o, tk := offlineFor(r, key, []int{7, 11}[(i/4)%2])
+				m.Offline, signer = &o, tk
+				m.Flags |= 1
+			}
+			if len(m.Leases) == 0 {
+				m.Leases = []rm.Lease2{gen.Lease2(r)}
+			}
+			for j := range m.Keys {
+				if n, ok := rm.CryptoLen(int(m.Keys[j].Type)); ok {
+					m.Keys[j].Data = r.Bytes(n)
+				}
+			}
+			priv, _ := lib.LibSigningPrivateKey(signer)
+			ls, ok, err := lib.BuildLeaseSet2(m, priv)
+			if !ok || err != nil {
+				return
+			}
+			b, err := ls.Bytes()
+			if err != nil {
+				return
+			}
+			sh["class"] = "library-signed/leaseset2"
+			c05LibSigned(c, verifyAdapters["leaseset2"], b, sh, r)
+		default: // NewEncryptedLeaseSet
+			m, sh := gen.EncryptedLeaseSet(r)
+			m.SigType, m.BlindedKey = uint16(key.Type), key.Pub
+			m.Offline, m.Flags = nil, m.Flags&2
+			signer := key
+			if i%4 < 2 {
+				o, tk := offlineFor(r, key, 7)
+				m.Offline, signer = &o, tk
+				m.Flags |= 1
+			}
+			els, err := lib.BuildEncryptedLeaseSet(m, signer.Ed25519Private())
+			if err != nil {
+				return
+			}
+			b, err := els.Bytes()
+			if err != nil {
+				return
+			}
+			sh["class"] = "library-signed/encleaseset"
+			c05LibSigned(c, verifyAdapters["encleaseset"], b, sh, r)
+		}
+	})
+
 	// stand-alone offline signatures: every destination type x transient type, all byte positions
 	c.Job("offline", c.N(300, 6000), func(i int, r *core.Rand) {
 		dts := []int{7, 11, 8, 0, 1}
@@ -271,6 +412,18 @@ func runC05(c *core.Ctx) {
 			check(b, key.Pub, "transient-type-changed")
 		}
 	})
+}
+
+// c05LibSigned judges a library-signed structure and single-bit edits at every byte position.
+func c05LibSigned(c *core.Ctx, va verifyAdapter, b []byte, sh gen.Shape, r *core.Rand) {
+	if c05Check(c, va, b, sh, "library-signed-original") {
+		c.Bucket("library-signed-verified-by-both/" + va.kind)
+	}
+	for p := 0; p < len(b); p++ {
+		x := append([]byte{}, b...)
+		x[p] ^= 1 << uint(r.Pick(8))
+		c05Check(c, va, x, sh, "library-signed-bitflip")
+	}
 }
 
 type forgery struct {
